@@ -487,20 +487,23 @@ func (f Index) Last(prefix []byte) (i Item, err error) {
 	// next key if the key that it seeks to is not found
 	// and by getting the previous key, the last one for the
 	// actual prefix is found
-	nextPrefix := incByteSlice(prefix)
-	l := len(prefix)
+	// The increment has to include the index prefix byte: with a nil prefix, or
+	// a prefix of 0xFF bytes only, the last key of this index is still followed
+	// by the keys of the indexes with a higher prefix byte.
+	totalPrefix := append(append(make([]byte, 0, len(f.prefix)+len(prefix)), f.prefix...), prefix...)
+	nextPrefix := bytesIncrement(totalPrefix)
 
-	if l > 0 && nextPrefix != nil {
+	if nextPrefix != nil {
 		it.Seek(driver.Key{
 			Prefix: indexKeyPrefixLength,
-			Data:   append(f.prefix, nextPrefix...),
+			Data:   nextPrefix,
 		})
 		it.Prev()
 	} else {
+		// nothing can follow: this is the last index and the prefix is all 0xFF
 		it.Last()
 	}
 
-	totalPrefix := append(f.prefix, prefix...)
 	return f.itemFromIterator(it, totalPrefix)
 }
 
